@@ -1,0 +1,144 @@
+//! Verification hooks.
+//!
+//! Only compiled with `--cfg iroh_docs_verif`. Nothing in here is used by the crate itself
+//! unless one of the overrides is set; all of it is add-only instrumentation for the
+//! external verification harness.
+#![allow(missing_docs, missing_debug_implementations)]
+
+use std::sync::atomic::{AtomicU64, AtomicUsize, Ordering};
+
+use crate::{
+    ranger::{Range, RangeEntry, Store as RangerStore, SyncConfig},
+    sync::{RecordIdentifier, Replica, SignedEntry},
+};
+
+static CLOCK: AtomicU64 = AtomicU64::new(0);
+static MAX_SET_SIZE: AtomicUsize = AtomicUsize::new(usize::MAX);
+static SPLIT_FACTOR: AtomicUsize = AtomicUsize::new(usize::MAX);
+static FORCE_AGED_AT: AtomicU64 = AtomicU64::new(u64::MAX);
+static TX_CALLS: AtomicU64 = AtomicU64::new(0);
+
+/// Override the wall clock used for entry timestamps and validation (micros). 0 = real clock.
+pub fn set_clock(micros: u64) {
+    CLOCK.store(micros, Ordering::SeqCst);
+}
+
+pub(crate) fn clock() -> Option<u64> {
+    match CLOCK.load(Ordering::SeqCst) {
+        0 => None,
+        t => Some(t),
+    }
+}
+
+/// Override the reconciliation parameters used by `SyncConfig::default()`.
+pub fn set_sync_config(cfg: Option<(usize, usize)>) {
+    let (m, k) = cfg.unwrap_or((usize::MAX, usize::MAX));
+    MAX_SET_SIZE.store(m, Ordering::SeqCst);
+    SPLIT_FACTOR.store(k, Ordering::SeqCst);
+}
+
+pub(crate) fn sync_config() -> Option<(usize, usize)> {
+    let m = MAX_SET_SIZE.load(Ordering::SeqCst);
+    let k = SPLIT_FACTOR.load(Ordering::SeqCst);
+    if k == usize::MAX {
+        None
+    } else {
+        Some((m, k))
+    }
+}
+
+/// The effective default reconciliation parameters `(max_set_size, split_factor)`.
+pub fn default_sync_config() -> (usize, usize) {
+    let c = SyncConfig::default();
+    c.verif_parts()
+}
+
+/// Make the open write transaction look older than the commit delay at the `n`-th call
+/// (counted from the last reset) of `Store::tables()` / `Store::modify()`. `u64::MAX` = never.
+pub fn force_aged_at(n: u64) {
+    TX_CALLS.store(0, Ordering::SeqCst);
+    FORCE_AGED_AT.store(n, Ordering::SeqCst);
+}
+
+/// Number of `tables()` / `modify()` calls since the last [`force_aged_at`].
+pub fn tx_calls() -> u64 {
+    TX_CALLS.load(Ordering::SeqCst)
+}
+
+pub(crate) fn tx_call_is_aged() -> bool {
+    let n = TX_CALLS.fetch_add(1, Ordering::SeqCst);
+    n == FORCE_AGED_AT.load(Ordering::SeqCst)
+}
+
+fn range(x: RecordIdentifier, y: RecordIdentifier) -> Range<RecordIdentifier> {
+    Range::new(x, y)
+}
+
+/// `ranger::Store::get_first` of the replica's store instance.
+pub fn store_get_first(replica: &mut Replica<'_>) -> anyhow::Result<RecordIdentifier> {
+    replica.store.get_first()
+}
+
+/// `ranger::Store::get_range` of the replica's store instance, collected.
+pub fn store_get_range(
+    replica: &mut Replica<'_>,
+    x: RecordIdentifier,
+    y: RecordIdentifier,
+) -> anyhow::Result<Vec<SignedEntry>> {
+    replica.store.get_range(range(x, y))?.collect()
+}
+
+/// `ranger::Store::get_range_len`.
+pub fn store_get_range_len(
+    replica: &mut Replica<'_>,
+    x: RecordIdentifier,
+    y: RecordIdentifier,
+) -> anyhow::Result<usize> {
+    replica.store.get_range_len(range(x, y))
+}
+
+/// `ranger::Store::get_fingerprint`.
+pub fn store_get_fingerprint(
+    replica: &mut Replica<'_>,
+    x: RecordIdentifier,
+    y: RecordIdentifier,
+) -> anyhow::Result<[u8; 32]> {
+    Ok(replica.store.get_fingerprint(&range(x, y))?.0)
+}
+
+/// `ranger::Store::prefixes_of`, collected.
+pub fn store_prefixes_of(
+    replica: &mut Replica<'_>,
+    id: &RecordIdentifier,
+) -> anyhow::Result<Vec<SignedEntry>> {
+    replica.store.prefixes_of(id)?.collect()
+}
+
+/// `ranger::Store::remove_prefix_filtered` with the predicate `timestamp <= max_ts`.
+pub fn store_remove_prefix_older(
+    replica: &mut Replica<'_>,
+    id: &RecordIdentifier,
+    max_ts: u64,
+) -> anyhow::Result<usize> {
+    replica
+        .store
+        .remove_prefix_filtered(id, |r| r.timestamp() <= max_ts)
+}
+
+/// `ranger::Store::put` (no validation, no events). `None` = not inserted.
+pub fn store_put(replica: &mut Replica<'_>, entry: SignedEntry) -> anyhow::Result<Option<usize>> {
+    Ok(match replica.store.put(entry)? {
+        crate::ranger::InsertOutcome::Inserted { removed } => Some(removed),
+        crate::ranger::InsertOutcome::NotInserted => None,
+    })
+}
+
+/// The fingerprint of a single entry and of the empty set.
+pub fn entry_fingerprint(entry: &SignedEntry) -> [u8; 32] {
+    entry.as_fingerprint().0
+}
+
+/// The fingerprint of the empty set.
+pub fn empty_fingerprint() -> [u8; 32] {
+    crate::ranger::Fingerprint::empty().0
+}
